@@ -249,6 +249,14 @@ func (x *Exec) loopEnv(st *State, fr *Frame, h *ssa.BasicBlock, lc *LoopContract
 	for i, f := range fr.fn.FreeVars {
 		vars[f.Name()] = fr.free[i]
 	}
+	// source variables carried by phis of enclosing / earlier loops, then those of this loop header
+	for val, v := range fr.vals {
+		if phi, ok := val.(*ssa.Phi); ok && phi.Comment != "" && phi.Block() != h && phi.Block().Dominates(h) {
+			if old, dup := vars[phi.Comment]; !dup || old.S == "" {
+				vars[phi.Comment] = v
+			}
+		}
+	}
 	for _, ins := range h.Instrs {
 		if phi, ok := ins.(*ssa.Phi); ok {
 			if v, ok := fr.vals[phi]; ok && phi.Comment != "" {
